@@ -112,6 +112,12 @@ func GenMap(r *mon.RNG, o *MapOpts) *GMap {
 		if elide {
 			return fmt.Sprintf("skip%d", nameN)
 		}
+		switch r.Intn(16) {
+		case 0: // names that start with neither an upper- nor a lower-case letter are ordinary (not elided) rules
+			return fmt.Sprintf("_%c%d", 'a'+rune(r.Intn(26)), nameN)
+		case 1:
+			return fmt.Sprintf("%dx%c", nameN, 'A'+rune(r.Intn(26)))
+		}
 		return fmt.Sprintf("%c%d", 'A'+rune(r.Intn(26)), nameN)
 	}
 	alpha := AlphaBasic
